@@ -70,9 +70,10 @@ static void roundtrip(const uint8_t* x, size_t n, int c, int lvl, int placement,
     }
     if (!caps) return;
     /* destination capacities around the bound: refused, or correct without overflow */
-    size_t capv[4] = { 0, 1, b - 1, b + 1 };
-    for (int k = 0; k < 4; k++) {
-        size_t cap = capv[k];
+    /* inputs of up to 20 bytes: EVERY capacity 0..bound+1 (the codecs have special paths for inputs stored as one literal); longer inputs: 0, 1, bound-1, bound+1 */
+    size_t capv[4] = { 0, 1, b - 1, b + 1 }; size_t ncap = n <= 20 ? b + 2 : 4;
+    for (size_t k = 0; k < ncap; k++) {
+        size_t cap = n <= 20 ? k : capv[k];
         uint8_t* d2 = mc_arena_tail(&A_dst, cap);
         size_t w2 = (size_t)-1;
         st = ccompress(c, lvl, src, n, d2, cap, &w2);
